@@ -33,6 +33,8 @@ type Wire struct {
 	mu      sync.Mutex
 	Log     []*Exchange
 	Keep    bool
+	// OnExchange, if set, is called with every completed exchange (on the calling goroutine).
+	OnExchange func(*Exchange)
 }
 
 type countingBody struct {
@@ -108,6 +110,9 @@ func (w *Wire) serve(raw []byte) (*Exchange, []byte, error) {
 	var out bytes.Buffer
 	if err := resp.Write(&out); err != nil {
 		return ex, nil, fmt.Errorf("wire: response does not serialise: %w", err)
+	}
+	if w.OnExchange != nil {
+		w.OnExchange(ex)
 	}
 	if w.Keep {
 		w.mu.Lock()
